@@ -82,7 +82,7 @@ def check(prop, tier, seed):
 
 def replay(obj):
     s = obj.get("scenario")
-    run = Run("C05", "quick", 0)
+    run = Run("C05", "replay", 0)
     binp = go_test_build("./sess/", "sess.test")
     traces = sc.run_driver(run, binp, [s], "replay", testname="TestSendPath")
     rej = sc.validate(run, traces, module="WireTrace", mods=["WireTrace.tla"])
